@@ -49,6 +49,11 @@ CHECKS = {
             "functions; TAI/GPS offsets at every entry +-2 s, yearly to 4094, at the 2^31/2^32 boundaries and seeded, real-second differences "
             "of ordered pairs in both orders and real-second additions across every inserted second are validated by LeapsTrace.tla",
             "LeapTab.tla is a frozen copy of lib/leap-seconds.list; differences only for |d| < 2^31 s (beyond: known finding); operands equal to 23:59:60 not used", "5 C14"),
+    "C11": ("model_checking", "TLA+ Clock (carry mechanism refines floor-division AddS; slot overflow refuted as control) model-checked; dt_dtadd/dt_dtdiff/%s/@N/24:00:00 replayed against chain arithmetic; tool events validated by ClockTrace",
+            "Clock.tla is model-checked exhaustively with the day scaled to 6 s (every carry / negative remainder combination, |k| <= 10 days); "
+            "dt_dtadd in s/m/h up to 2^31-1 s, dt_dtdiff(DT_DURS) incl. pairs > 68 years apart, epoch in/out and 24:00:00 are compared with "
+            "<<chain day, second of day>> arithmetic in 5 notations; dadd/ddiff/dconv events are validated by ClockTrace.tla",
+            "days are a stride + boundary windows, seconds-of-day and counts are enumerated boundary sets + seeded; known findings: epoch value 0, negative epoch on stdin, day-count tail", "5 C11"),
 }
 NOT_APPLICABLE = []
 
